@@ -246,3 +246,37 @@ func RidgeLoopBad(m *mat3, lambda float64) {
 		m[i*3] += lambda
 	}
 }
+
+type stepper struct {
+	x    float64
+	done bool
+}
+
+// want:RETFIELD the improved value is handed out but not kept.
+func (s *stepper) StepBad() float64 {
+	if s.done {
+		return s.x
+	}
+	next := s.x / 2
+	if next < 1e-9 {
+		s.done = true
+		return next
+	}
+	s.x = next
+	return s.x
+}
+
+// clean:RETFIELD
+func (s *stepper) StepGood() float64 {
+	if s.done {
+		return s.x
+	}
+	next := s.x / 2
+	if next < 1e-9 {
+		s.done = true
+		s.x = next
+		return s.x
+	}
+	s.x = next
+	return s.x
+}
